@@ -64,6 +64,13 @@ def rand_fields(rng, valid_bias=0.7):
         d = rng.choice([1, 28, 29, 30, 31, rng.randint(1, 28)])
         h, mi, s = rng.choice([0, 23, rng.randint(0, 23)]), rng.choice([0, 59, rng.randint(0, 59)]), rng.choice([0, 59, 60, rng.randint(0, 59)])
         ns = rng.choice([0, 999999999, rng.randint(0, 999999999)])
+    elif rng.random() < 0.7:
+        # exactly one defect in otherwise valid fields
+        f = rand_fields(rng, 1.0)
+        key = rng.choice(["mo", "d", "d", "h", "mi", "s", "ns"])
+        f[key] = {"mo": rng.choice([0, 13, 255]), "d": rng.choice([0, 32, 255, 31, 30, 29]), "h": rng.choice([24, 255]), "mi": rng.choice([60, 255]),
+                  "s": rng.choice([61, 255]), "ns": rng.choice([1000000000, 2147483647])}[key]
+        return f
     else:
         mo = rng.choice([0, 13, 255, rng.randint(0, 14)])
         d = rng.choice([0, 32, 255, rng.randint(0, 33)])
